@@ -195,6 +195,18 @@ func c06Produce(r *sim.Run, scheme string, key, iv []byte) (*C06Prod, error) {
 		return nil, err
 	}
 	enc := func(what string, init *mp4.InitSegment, segs []*mp4.MediaSegment) ([]byte, [][]byte, error) {
+		if r.T.Chance(150) {
+			// the device refuses one write while the (clear or protected) init is written: Encode must say so
+			fs := sim.NewSink(r)
+			fs.FailAtOp = 1 + r.T.Draw(48)
+			ferr := init.Encode(fs)
+			if fs.Failed {
+				r.Probe("init-encode-write-refused")
+				if ferr == nil {
+					r.Violate("c06-swallowed-write-error", "write #%d was refused while the %s init was encoded, Encode reported success having delivered %d bytes", fs.FailAtOp, what, len(fs.Buf))
+				}
+			}
+		}
 		var ib bytes.Buffer
 		if err := init.Encode(&ib); err != nil {
 			return nil, nil, fmt.Errorf("%s init encode: %w", what, err)
@@ -566,6 +578,20 @@ func c06Play(r *sim.Run, p *C06Prod, key []byte) {
 	reencode := func(f *mp4.File) []byte {
 		if boxTree {
 			f.FragEncMode = mp4.EncModeBoxTree
+		}
+		if t.Chance(200) {
+			// the device refuses one write while the decrypted file is written: the caller must hear about it (a decrypted
+			// file that silently lacks bytes does not restore the content), and the next attempt must be complete
+			fs := sim.NewSink(r)
+			fs.FailAtOp = 1 + t.Draw(64)
+			var ferr error
+			r.Guard("Encode(decrypted, one write refused)", func() { ferr = f.Encode(fs) })
+			if fs.Failed {
+				r.Probe("decrypted-encode-write-refused")
+				if ferr == nil {
+					r.Violate("c06-swallowed-write-error", "write #%d was refused while the decrypted file was encoded, Encode reported success having delivered %d bytes", fs.FailAtOp, len(fs.Buf))
+				}
+			}
 		}
 		s := sim.NewSink(nil)
 		var err error
